@@ -120,13 +120,16 @@ fn reference(i: &Instruction, pre: &Snap) -> Flow {
         }
         Instruction::JAL(o) => {
             let (ra, rb, imm) = o.unpack();
-            // the link register is written before the target is read: rA == rB (other than
-            // $zero) and reserved link registers are corners we do not judge
+            // reserved link registers (other than $zero, which discards the link) are a
+            // corner we do not judge
             let a = ra.to_u8();
-            if (a != 0 && a < 16) || (a == rb.to_u8() && a != 0) {
+            if a != 0 && a < 16 {
                 return Flow::Unspecified;
             }
-            Flow::Jump { taken: true, target: fin(Some(reg(pre, rb) + 4 * u16::from(imm) as u128)), kind: "JAL" }
+            // instruction set: `$rA = $pc + 4; $pc = $rB + imm * 4`, in this order: with the
+            // same register for both, the target is computed from the link just stored
+            let base = if a == rb.to_u8() && a != 0 { pc + 4 } else { reg(pre, rb) };
+            Flow::Jump { taken: true, target: fin(Some(base + 4 * u16::from(imm) as u128)), kind: if a == rb.to_u8() && a != 0 { "JAL(rA==rB)" } else { "JAL" } }
         }
         Instruction::CALL(_) | Instruction::RET(_) | Instruction::RETD(_) | Instruction::RVRT(_) => Flow::Frame,
         _ => Flow::Next,
